@@ -10,6 +10,7 @@ package main
 
 import (
 	"bytes"
+	"encoding/hex"
 	"errors"
 	"flag"
 	"fmt"
@@ -29,6 +30,7 @@ import (
 	"github.com/oasisprotocol/oasis-core/go/common/node"
 	"github.com/oasisprotocol/oasis-core/go/common/quantity"
 	"github.com/oasisprotocol/oasis-core/go/consensus/api/transaction"
+	consensusGenesis "github.com/oasisprotocol/oasis-core/go/consensus/genesis"
 	abciAPI "github.com/oasisprotocol/oasis-core/go/consensus/cometbft/api"
 	registryState "github.com/oasisprotocol/oasis-core/go/consensus/cometbft/apps/registry/state"
 	stakingApp "github.com/oasisprotocol/oasis-core/go/consensus/cometbft/apps/staking"
@@ -115,7 +117,14 @@ type world struct {
 	gen      *staking.Genesis
 	inited   bool
 	notes    map[string]int
+	fatal    string // text of the last BeginBlock/EndBlock/InitChain error
+	c08      string // first "failed transaction changed state" observation (spec c08)
 }
+
+// spec selects which property the run reports on: c05 (ledger conservation; model + invariant),
+// c08 (a failed transaction changes nothing but fee and nonce; model-free), c10 (no block content
+// halts block execution; model-free).
+var spec = "c05"
 
 func newWorld() *world {
 	w := &world{cfg: &abciAPI.MockApplicationStateConfig{}, notes: map[string]int{}}
@@ -209,6 +218,14 @@ func (w *world) genesisLine(ws []string) {
 			p.RewardSchedule = append(p.RewardSchedule, staking.RewardStep{Until: beacon.EpochTime(atoi(ab[0])), Scale: qq(ab[1])})
 		}
 	}
+	if g := atoi(get("gascost")); g > 0 {
+		p.GasCosts = transaction.Costs{}
+		for _, op := range []transaction.Op{staking.GasOpTransfer, staking.GasOpBurn, staking.GasOpAddEscrow,
+			staking.GasOpReclaimEscrow, staking.GasOpAmendCommissionSchedule, staking.GasOpAllow, staking.GasOpWithdraw} {
+			p.GasCosts[op] = transaction.Gas(g)
+		}
+		w.cfg.Genesis.Consensus.Parameters.GasCosts = transaction.Costs{consensusGenesis.GasOpTxByte: 1}
+	}
 	p.Slashing = map[staking.SlashReason]staking.Slash{
 		staking.SlashConsensusEquivocation: {Amount: qq(get("slash")), FreezeInterval: beacon.EpochTime(atoi(get("freeze")))},
 	}
@@ -285,12 +302,14 @@ func (w *world) init() string {
 	w.setupRegistry()
 	if err := w.gen.SanityCheck(w.cfg.CurrentEpoch); err != nil {
 		debugf("genesis sanity check: %v", err)
+		w.fatal = "genesis sanity check: " + err.Error()
 		return "fatal"
 	}
 	ctx := w.appState.NewContext(abciAPI.ContextInitChain)
 	defer ctx.Close()
 	if err := w.app.InitChain(ctx, types.RequestInitChain{}, &genesis.Document{Staking: *w.gen}); err != nil {
 		debugf("InitChain: %v", err)
+		w.fatal = err.Error()
 		return "fatal"
 	}
 	w.inited = true
@@ -327,6 +346,8 @@ func errKind(err error) string {
 		return "err:allowance-gt-supply"
 	case strings.Contains(err.Error(), "invalid account address"):
 		return "err:bad-account"
+	case errors.Is(err, abciAPI.ErrOutOfGas):
+		return "err:out-of-gas"
 	}
 	return "err:other:" + strings.ReplaceAll(err.Error(), " ", "_")
 }
@@ -364,14 +385,125 @@ func (w *world) tx(f []string) string {
 	default:
 		panic("unknown tx body " + f[4])
 	}
-	// what the mux does in DeliverTx (abci/transaction.go processTx): authenticate + pay fee, execute
+	for _, t := range f {
+		if strings.HasPrefix(t, "gas=") {
+			tx.Fee.Gas = transaction.Gas(atoi(t[4:]))
+		}
+	}
+	rawLen := len(cbor.Marshal(tx)) + 100 // signed envelope
+	// what the mux does in DeliverTx (abci/transaction.go processTx): authenticate + pay fee,
+	// charge gas per transaction byte, execute
 	ctx := w.appState.NewContext(abciAPI.ContextDeliverTx)
 	defer ctx.Close()
 	ctx.SetTxSigner(s.Public())
-	if err := w.app.AuthenticateTx(ctx, tx); err != nil {
-		return errKind(err)
+	var before map[string]string
+	var feesBefore quantity.Quantity
+	if spec == "c08" {
+		before = w.rawDump(ctx)
+		fb := stakingState.BlockFees(ctx)
+		feesBefore = *fb.Clone()
 	}
-	return errKind(w.app.ExecuteTx(ctx, tx))
+	authErr := w.app.AuthenticateTx(ctx, tx)
+	var err error
+	if authErr == nil {
+		err = ctx.Gas().UseGas(rawLen, consensusGenesis.GasOpTxByte, w.appState.ConsensusParameters().GasCosts)
+		if err == nil {
+			err = w.app.ExecuteTx(ctx, tx)
+		}
+	}
+	if spec == "c08" && w.c08 == "" && (authErr != nil || err != nil) {
+		w.c08 = w.failedTxCheck(ctx, before, &feesBefore, signer, tx, authErr != nil)
+	}
+	if authErr != nil {
+		return errKind(authErr)
+	}
+	return errKind(err)
+}
+
+// rawDump reads every key/value pair of the state tree.
+func (w *world) rawDump(ctx *abciAPI.Context) map[string]string {
+	m := map[string]string{}
+	it := ctx.State().NewIterator(ctx)
+	defer it.Close()
+	for it.Rewind(); it.Valid(); it.Next() {
+		m[string(it.Key())] = string(it.Value())
+	}
+	if it.Err() != nil {
+		panic(it.Err())
+	}
+	return m
+}
+
+// failedTxCheck is the C08 clause on the real state: a transaction rejected at authentication
+// changes nothing; one that fails afterwards changes only the signer's general balance (-fee) and
+// nonce (+1) and the block fee accumulator (+fee).  Returns "" or the violation (with signature).
+func (w *world) failedTxCheck(ctx *abciAPI.Context, before map[string]string, feesBefore *quantity.Quantity,
+	signer int, tx *transaction.Transaction, authFailed bool,
+) string {
+	after := w.rawDump(ctx)
+	fa := stakingState.BlockFees(ctx)
+	method := string(tx.Method)
+	var keys []string
+	for k := range before {
+		keys = append(keys, k)
+	}
+	for k := range after {
+		if _, ok := before[k]; !ok {
+			keys = append(keys, k)
+		}
+	}
+	sort.Strings(keys)
+	st := stakingState.NewMutableState(ctx.State())
+	acctAfter, _ := st.Account(ctx, theCast.addrs[signer])
+	// the only key that may differ: the signer's account (0x50 || address)
+	var diff []string
+	for _, k := range keys {
+		if before[k] != after[k] {
+			diff = append(diff, k)
+		}
+	}
+	sig := func(k string) string {
+		return fmt.Sprintf("c08-failed-tx-changed-state:%s:%s", method, hex.EncodeToString([]byte(k[:1])))
+	}
+	wantFees := feesBefore.Clone()
+	if !authFailed {
+		_ = wantFees.Add(&tx.Fee.Amount)
+	}
+	if fa.Cmp(wantFees) != 0 {
+		return fmt.Sprintf("C08 %s: fee accumulator %s -> %s after a failed %s (fee %s, rejected at authentication: %v)",
+			"c08-failed-tx-changed-state:"+method+":feeacc", feesBefore, &fa, method, &tx.Fee.Amount, authFailed)
+	}
+	if authFailed {
+		if len(diff) > 0 {
+			return fmt.Sprintf("C08 %s: transaction rejected at authentication changed key %x", sig(diff[0]), diff[0])
+		}
+		return ""
+	}
+	acctKey := append([]byte{0x50}, theCast.addrs[signer][:]...)
+	for _, k := range diff {
+		if k != string(acctKey) {
+			return fmt.Sprintf("C08 %s: failed %s changed key %x (besides the signer's account)", sig(k), method, k)
+		}
+	}
+	// decode the signer's account before/after
+	var ab staking.Account
+	if v, ok := before[string(acctKey)]; ok {
+		if err := cbor.Unmarshal([]byte(v), &ab); err != nil {
+			panic(err)
+		}
+	}
+	want := ab
+	want.General.Nonce++
+	wb := ab.General.Balance.Clone()
+	if err := wb.Sub(&tx.Fee.Amount); err != nil {
+		return fmt.Sprintf("C08 %s: fee exceeds balance yet authentication passed", sig(string(acctKey)))
+	}
+	want.General.Balance = *wb
+	if !bytes.Equal(cbor.Marshal(want), cbor.Marshal(acctAfter)) {
+		return fmt.Sprintf("C08 %s: failed %s changed the signer's account beyond fee and nonce: before=%s after=%s",
+			sig(string(acctKey)), method, cbor.Marshal(ab), cbor.Marshal(acctAfter))
+	}
+	return ""
 }
 
 func (w *world) begin(f []string) string {
@@ -396,14 +528,26 @@ func (w *world) begin(f []string) string {
 	}
 	bc.ValidatorMisbehavior = nil
 	for _, v := range ints(f[4]) {
+		addr := []byte(fmt.Sprintf("unknown validator %03d", v))
+		if v < nValidators {
+			addr = theCast.valAddr[v]
+		}
 		bc.ValidatorMisbehavior = append(bc.ValidatorMisbehavior, types.Misbehavior{
-			Type: types.MisbehaviorType_DUPLICATE_VOTE, Validator: types.Validator{Address: theCast.valAddr[v]},
+			Type: types.MisbehaviorType_DUPLICATE_VOTE, Validator: types.Validator{Address: addr},
 		})
+	}
+	if n == 0 && spec == "c10" {
+		// CometBFT delivers an empty last-commit only for the initial block, where the real
+		// application state reports no epoch yet (abci/state.go GetCurrentEpoch: LastHeight()==0).
+		saved := w.cfg.CurrentEpoch
+		w.cfg.CurrentEpoch = beacon.EpochInvalid
+		defer func() { w.cfg.CurrentEpoch = saved }()
 	}
 	ctx := w.appState.NewContext(abciAPI.ContextBeginBlock)
 	defer ctx.Close()
 	if err := w.app.BeginBlock(ctx); err != nil {
 		debugf("BeginBlock: %v", err)
+		w.fatal = err.Error()
 		return "fatal"
 	}
 	return "ok"
@@ -415,6 +559,7 @@ func (w *world) end() string {
 	ctx.Close()
 	if err != nil {
 		debugf("EndBlock: %v", err)
+		w.fatal = err.Error()
 		return "fatal"
 	}
 	// the block is committed: the mux replaces the block context (fee accumulator, proposer)
@@ -650,9 +795,17 @@ func (w *world) exec(op string) (line string, dump bool, stop bool) {
 // complaint (if any, at a block boundary) and a panic message.
 var globalNotes = map[string]int{}
 
+// set by runImpl for the model-free specs
+var lastC08, lastFatal, lastFatalPhase string
+
 func runImpl(ops []string) (lines []string, inTree string, panicked string) {
 	w := newWorld()
+	lastC08, lastFatal, lastFatalPhase = "", "", ""
 	defer func() {
+		lastC08 = w.c08
+		if lastFatal == "" && w.fatal != "" && lastFatalPhase != "" {
+			lastFatal = w.fatal
+		}
 		for k, v := range w.notes {
 			if v > 0 {
 				globalNotes[k]++
@@ -671,6 +824,9 @@ func runImpl(ops []string) (lines []string, inTree string, panicked string) {
 			line, dump, st := w.exec(op)
 			stop = st
 			lines = append(lines, line)
+			if st && (strings.HasPrefix(line, "begin ") || strings.HasPrefix(line, "end ")) {
+				lastFatalPhase = strings.Fields(line)[0]
+			}
 			if dump {
 				lines = append(lines, w.dump())
 				if (strings.HasPrefix(line, "end ") || strings.HasPrefix(line, "init ")) && inTree == "" {
@@ -687,8 +843,46 @@ func runImpl(ops []string) (lines []string, inTree string, panicked string) {
 	return
 }
 
+func slug(e string) string {
+	parts := strings.Split(e, ": ")
+	if len(parts) > 2 {
+		parts = parts[len(parts)-2:]
+	}
+	t := strings.Join(parts, ":")
+	var b strings.Builder
+	for _, c := range t {
+		switch {
+		case c >= 'a' && c <= 'z', c >= 'A' && c <= 'Z', c == ':':
+			b.WriteRune(c)
+		case c == ' ' || c == '_' || c == '-':
+			b.WriteByte('_')
+		}
+	}
+	r := b.String()
+	if len(r) > 70 {
+		r = r[:70]
+	}
+	return r
+}
+
 func check(ops []string) (string, []string) {
 	lines, inTree, p := runImpl(ops)
+	switch spec {
+	case "c08":
+		if p != "" && !strings.HasPrefix(p, "begin") && !strings.HasPrefix(p, "end") {
+			// panics are C10's business; here only what failed transactions leave behind
+			return "", lines
+		}
+		return lastC08, lines
+	case "c10":
+		if p != "" {
+			return "C10 c10-fatal:panic:" + slug(p) + " — implementation panicked: " + p, lines
+		}
+		if lastFatalPhase != "" {
+			return fmt.Sprintf("C10 c10-fatal:%s:%s — %s returned an error: %s", lastFatalPhase, slug(lastFatal), lastFatalPhase, lastFatal), lines
+		}
+		return "", lines
+	}
 	if p != "" {
 		return "implementation panicked: " + p, lines
 	}
@@ -716,6 +910,8 @@ func check(ops []string) (string, []string) {
 func signature2(d string) string {
 	w := strings.Fields(d)
 	switch {
+	case strings.HasPrefix(d, "C08 "), strings.HasPrefix(d, "C10 "):
+		return strings.TrimSuffix(w[1], ":")
 	case strings.HasPrefix(d, "implementation panicked"):
 		return "panic"
 	case strings.HasPrefix(d, "model-error"):
@@ -739,6 +935,7 @@ func signature2(d string) string {
 // ---------------------------------------------------------------- generator (live: it looks at the real state)
 
 type gen struct {
+	gasTok string
 	r   *hlib.Rng
 	w   *world
 	ops []string
@@ -784,6 +981,9 @@ func (g *gen) observe(op, before, after string) {
 }
 
 func (g *gen) emit(op string) bool {
+	if strings.HasPrefix(op, "tx ") {
+		op += g.gasTok
+	}
 	g.ops = append(g.ops, op)
 	name := strings.Fields(op)[0]
 	before := ""
@@ -806,6 +1006,16 @@ func (g *gen) emit(op string) bool {
 
 func (g *gen) amount(around *big.Int) *big.Int {
 	r := g.r
+	if spec == "c10" && r.Chance(1, 6) {
+		// extreme values
+		switch r.Intn(3) {
+		case 0:
+			return new(big.Int).SetUint64(^uint64(0))
+		case 1:
+			return new(big.Int).Lsh(big.NewInt(1), 255)
+		}
+		return new(big.Int).Sub(new(big.Int).Lsh(big.NewInt(1), 64), big.NewInt(int64(r.Intn(3))))
+	}
 	switch r.Intn(12) {
 	case 0:
 		return big.NewInt(0)
@@ -874,6 +1084,11 @@ func (g *gen) tx() bool {
 		fee = big.NewInt(0)
 	}
 	head := fmt.Sprintf("tx %d %d %s ", s, n, fee)
+	g.gasTok = ""
+	if spec != "c05" {
+		// gas limits that exhaust at the per-byte charge, at the operation's charge, or never
+		g.gasTok = fmt.Sprintf(" gas=%d", []int{0, 50, 150, 250, 305, 1000000, 1000000}[r.Intn(7)])
+	}
 	avail := new(big.Int).Sub(general[s], fee)
 	if avail.Sign() < 0 {
 		avail.SetInt64(0)
@@ -965,6 +1180,9 @@ func genCase(r *hlib.Rng, nblocks int, res *hlib.Result) []string {
 		g.mtb, pick(0, 0, 1, 50), pick(0, 0, 1, 100), pick(0, 1, 1, 2, 3), pick(0, 1, 2, 8, 8), pick(0, 0, 0, 0, 0, 0, 0, 1), pick(0, 0, 0, 0, 0, 0, 0, 1),
 		pick(0, 1, 2, 7), pick(0, 1, 1, 3), pick(0, 1, 1, 5), sched, pick(0, 1, 1000, 100000000), pick(0, 1, 1000, 100000000),
 		thrN, thrD, mincom, pick(0, 1, 1000, 1000000000000), pick(0, 0, 1))
+	if spec != "c05" {
+		params += " gascost=100"
+	}
 	if strings.Contains(params, "wP=0 wV=0 wN=0") {
 		params = strings.Replace(params, "wP=0", "wP=1", 1)
 	}
@@ -1049,6 +1267,9 @@ func genCase(r *hlib.Rng, nblocks int, res *hlib.Result) []string {
 	if r.Chance(1, 3) {
 		common = new(big.Int).Lsh(big.NewInt(1), 80)
 	}
+	if spec == "c10" && r.Chance(1, 3) {
+		common = big.NewInt(int64(r.Intn(3))) // depleted common pool
+	}
 	total.Add(total, common).Add(total, gov).Add(total, lbf)
 	bad := r.Chance(1, 25)
 	if bad {
@@ -1086,8 +1307,14 @@ func genCase(r *hlib.Rng, nblocks int, res *hlib.Result) []string {
 			prop = strconv.Itoa(r.Intn(nValidators))
 		}
 		nEl := 1 + r.Intn(nValidators)
-		if r.Chance(1, 250) {
+		if (spec != "c10" && r.Chance(1, 250)) || (spec == "c10" && b == 0 && r.Chance(1, 2)) {
 			nEl = 0
+		}
+		if nEl == 0 && spec == "c10" {
+			// documented precondition: the vote list is non-empty whenever last block fees are non-zero
+			if d := strings.Fields(g.w.dump()); len(d) > 4 && d[4] != "0" {
+				nEl = 1 + r.Intn(nValidators)
+			}
 		}
 		var voters []int
 		perm := []int{0, 1, 2, 3, 4}
@@ -1103,6 +1330,9 @@ func genCase(r *hlib.Rng, nblocks int, res *hlib.Result) []string {
 			ev = append(ev, r.Intn(nValidators))
 			if r.Chance(1, 3) {
 				ev = append(ev, r.Intn(nValidators))
+			}
+			if r.Chance(1, 4) {
+				ev = append(ev, nValidators+r.Intn(5)) // evidence against an unknown validator
 			}
 		}
 		// the driver encodes voters as validator numbers; the model wants entity account numbers
@@ -1149,7 +1379,13 @@ func main() {
 	out := flag.String("out", "-", "result file")
 	replay := flag.String("replay", "", "replay file (one op per line)")
 	corpus := flag.String("corpus", "", "corpus dir, run first")
+	specFlag := flag.String("spec", "c05", "property to report on: c05 (conservation; model + invariant), c08 (failed tx changes only fee+nonce; model-free), c10 (no block content halts block execution; model-free)")
 	flag.Parse()
+	spec = *specFlag
+	if spec != "c05" && spec != "c08" && spec != "c10" {
+		fmt.Fprintln(os.Stderr, "unknown -spec", spec)
+		os.Exit(2)
+	}
 
 	res := hlib.NewResult("ledgerdrv", *seed)
 	res.Rule = "generated block histories on the real staking application (mock application state): genesis with random parameters (min balances, fee-split weights, reward schedule and factors, signing threshold, commission rates incl. 0 and 100%, slashing with/without freeze, disabled transfers/delegation), 6 entities + common-pool and burn address as targets, 5 validators (one entity with two nodes); per block: optional epoch change, BeginBlock with proposer / vote participation / evidence, up to 6 transactions (transfer incl. self and to burn/reserved address, burn, add escrow incl. self-delegation, reclaim, allow, withdraw; valid and invalid nonces, zero/huge/boundary amounts, fees) or direct state movers (SlashEscrow, TransferFromCommon, AddRewards, governance deposit/refund/discard), EndBlock. A history is non-trivial when at least one value-moving operation succeeded; distinct by op list"
@@ -1181,7 +1417,7 @@ func main() {
 		}
 		kind := "divergence"
 		switch {
-		case strings.HasPrefix(d, "SPEC"), strings.HasPrefix(d, "INTREE"):
+		case strings.HasPrefix(d, "SPEC"), strings.HasPrefix(d, "INTREE"), strings.HasPrefix(d, "C08 "), strings.HasPrefix(d, "C10 "):
 			kind = "spec"
 		case strings.Contains(d, "panicked"):
 			kind = "panic"
@@ -1203,6 +1439,9 @@ func main() {
 		ents, _ := os.ReadDir(*corpus)
 		for _, e := range ents {
 			if !strings.HasPrefix(e.Name(), "ledger-") {
+				continue
+			}
+			if spec != "c05" && !strings.HasPrefix(e.Name(), "ledger-"+spec) {
 				continue
 			}
 			if ops, err := hlib.ReadLines(*corpus + "/" + e.Name()); err == nil && len(ops) > 0 {
